@@ -1,6 +1,7 @@
 (* C09 -- Encryption names the group key of the interval containing the current time.
    Statements only; k_now/k_l0/k_l1/k_l2 are regenerated from _get_protection_gke_from_cache. *)
 From V Require Import Prelude.Base gen.Kernels Model.Interval Proofs.C09.
+From V Require Import Model.Types Model.Crypto Model.KeyId Model.Kek Model.SecDesc Model.Blob Model.Client Proofs.BlobPkcs7 Proofs.BlobMain Proofs.C01Lib Proofs.C01 Proofs.C09Propagates.
 
 (* t is FILETIME (100 ns units since 1601); B = 3.6e11 *)
 Theorem C09_interval : forall t, 0 <= t ->
@@ -37,6 +38,23 @@ Proof. vm_compute. intuition discriminate. Qed.
    Flow/World_e2e.v in which time.time_ns() returns time_ns, returns the envelope Model/Client.v protection_gke_from_cache
    returns, whose (l0, l1, l2) are interval_of_time_ns time_ns (the cache after the call is not a return value) *)
 From V Require Import Prelude.PyAst Prelude.PyWorld gen.F_e2e Model.Client Flow.World_e2e Proofs.Flow_e2e_gke.
+(* ---- last clause of the property: the key identifier PLACED IN A NEW BLOB names that interval. For every successful offline protect
+   call at time_ns (hypotheses of C01_roundtrip_offline), the blob parses back to a key identifier whose (L0, L1, L2) is the interval
+   of time_ns and whose root key id is the requested one ---- *)
+Theorem C09_propagates : forall (c : Crypto) (h : hash) (rk : root_key) (rkid : bytes) (s : sid) (sid : pystr) (time_ns l0 l1 l2 : Z),
+  rk_hash rk = Ok h -> rk_kdf_alg rk = STR_KDF_ALG -> len rkid = 16 -> sid_parse sid = Ok s -> sid_okb sid = true ->
+  0 <= time_ns -> interval_of_time_ns time_ns = (l0, l1, l2) -> kdf_nonempty c ->
+  forall (cache : ccache) (r1 r2 r3 data blob : bytes) (cache1 : ccache),
+  cache_ok c h rk rkid (target_sd s) l0 cache -> len r2 = 12 -> len r3 = 32 ->
+  (forall kek w, derived_kek c h rk rkid (target_sd s) l0 l1 l2 r3 = Ok kek -> kw_wrap c kek r1 = Ok w -> len w < U32) ->
+  (forall ct, gcm_enc c r1 r2 data = Ok ct -> len ct < U32) ->
+  protect_offline c cache r1 r2 r3 data sid (Some rkid) time_ns = (Ok blob, cache1) ->
+  exists b, blob_unpack blob = Ok b /\
+    kid_l0 (b_key_identifier b) = l0 /\ kid_l1 (b_key_identifier b) = l1 /\ kid_l2 (b_key_identifier b) = l2 /\
+    kid_rkid (b_key_identifier b) = rkid.
+Proof. exact propagates. Qed.
+Print Assumptions C09_propagates.
+
 Theorem C09_flow_get_protection_gke_from_cache : forall c rnd_cek rnd_iv rnd_kek time_ns fuel rkid target_sd cache,
   run (WR c rnd_cek rnd_iv rnd_kek time_ns) fuel k_flow_get_protection_gke_from_cache [vopt_uuid rkid; VB target_sd; VO (OCache cache)]
   = (let* (e, _) := protection_gke_from_cache c cache rkid target_sd time_ns in Ok (vopt_env e)).
